@@ -5,7 +5,7 @@ From V.lib Require Import Base.
 From V.c07 Require Import C07Model.
 From V.c06 Require Import C06Model C06InitModel C06StructProofs C06CencProofs C06CbcsProofs C06SampleProofs C06InitProofs C06FragModel C06FragProofs.
 From V.c06 Require Import C06SencModel C06SencProofs C06SencAuxProofs C06TrexModel C06TrexProofs C06EntryModel C06EntryProofs.
-From V.c06 Require Import C06FileCbcsProofs.
+From V.c06 Require Import C06FileCbcsProofs C06TimingModel C06TimingProofs.
 
 (* cenc: crypting twice with the same key, IV and sub-sample map restores the sample — for EVERY block function
    E, every map (empty = whole sample, partial last block, clear runs > 65535, even overlapping or wrapping
@@ -356,6 +356,34 @@ Theorem C06_file_roundtrip_cbcs :
 Proof. exact file_roundtrip_cbcs. Qed.
 Print Assumptions C06_file_roundtrip_cbcs.
 
+(* ---------------------------------------------------------------- durations, flags, composition offsets, decode times *)
+(* EncryptFragment and DecryptFragment both call Fragment.GetFullSamples(their trex), which writes the tfhd / trex
+   defaults INTO trun.Samples (AddSampleDefaultValues) of the fragment that is then encoded.  For every trun as a
+   decoder delivers it (any combination of per-sample duration / size / flags / cto, first-sample-flags, data
+   offset), every tfhd, every trex on the encrypt side (a wrong one or nil included) and on the decrypt side: the
+   encoded trun is read back as the clear trun (only the data offset is new), after the encrypt round (tr1) and
+   again after the decrypt round (tr2); so sample count, sizes, durations, flags, composition offsets and decode
+   times reported by Fragment.GetFullSamples with any trex_d are those of the clear fragment *)
+Theorem C06_timing_roundtrip : forall tfhd trex_e tr off1 off2,
+  as_decoded tr = true ->
+  off1 < 4294967296 -> off2 < 4294967296 -> (tr_doff tr = true -> off1 <> 0 /\ off2 <> 0) ->
+  exists tr1 tr2,
+    trun_after_encrypt tfhd trex_e tr off1 = Ok tr1 /\
+    (forall trex_d, trun_after_encrypt tfhd trex_d tr1 off2 = Ok tr2) /\
+    tr_samples tr1 = tr_samples tr /\ tr_samples tr2 = tr_samples tr /\
+    forall trex_d base,
+      fragment_meta tfhd trex_d tr1 base = fragment_meta tfhd trex_d tr base /\
+      fragment_meta tfhd trex_d tr2 base = fragment_meta tfhd trex_d tr base.
+Proof. exact timing_roundtrip. Qed.
+Print Assumptions C06_timing_roundtrip.
+
+(* and the sizes with which C06_fragment_roundtrip_trex_cenc / _cbcs split the mdat payload are the size column of
+   that metadata: the `sizing` of those theorems is sizing_of tfhd trun *)
+Theorem C06_sizes_agree : forall tfhd trex tr base,
+  sample_sizes (option_map tx_size trex) (sizing_of tfhd tr) = sizes_of_meta (fragment_meta tfhd trex tr base).
+Proof. exact sizes_agree. Qed.
+Print Assumptions C06_sizes_agree.
+
 (* ---------------------------------------------------------------- several sample entries, several tracks *)
 (* a moov in which EVERY sample entry of EVERY track has been protected the way InitProtect protects its single
    entry (type -> encv / enca, sinf(frma = original type, schm, schi(tenc)) appended after the entry's own
@@ -501,3 +529,17 @@ Example ex_file_roundtrip_cbcs :
 Proof.
   split; [intros s ssps H; injection H as <-; cbn; lia|]. split; [repeat constructor|]. vm_compute. discriminate.
 Qed.
+
+(* the hypotheses of C06_timing_roundtrip are satisfiable: durations only in trex, sizes in tfhd, flags through
+   first-sample-flags + trex, per-sample composition offsets; the encrypt side using a nil trex changes nothing *)
+Example ex_timing :
+  let tr := mkTrun false false false true true true 121 33554432
+                   [mkTS 33554432 0 0 0; mkTS 0 0 0 500; mkTS 0 0 0 4294966296] in
+  let tfhd := mkTfhd None (Some 17) None in
+  let trex := Some (mkTrex 1024 1 16842752) in
+  as_decoded tr = true /\
+  trun_after_encrypt tfhd None tr 206 = Ok (set_data_offset tr 206) /\
+  fragment_meta tfhd trex tr 90000 =
+    [(mkTS 33554432 1024 17 0, 90000); (mkTS 16842752 1024 17 500, 91024); (mkTS 16842752 1024 17 4294966296, 92048)] /\
+  fragment_meta tfhd None tr 90000 <> fragment_meta tfhd trex tr 90000.
+Proof. vm_compute. repeat split; try reflexivity. discriminate. Qed.
